@@ -19,6 +19,10 @@ def run_timeout(seconds: float, func, *args, **kwargs):
     if gevent is not None and gevent.monkey.is_module_patched('threading'):
         raise RuntimeError('Time limiter not compatible with monkey-patched gevent threading module!')
 
+    class _TimeLimitReached(Exception):
+        # Private signal: a TimeoutError raised by the function itself should reach the caller unchanged
+        pass
+
     def _inner_run():
         with multiprocessing.pool.ThreadPool(processes=1) as pool:
             thread = pool.apply(lambda: threading.current_thread())
@@ -32,12 +36,12 @@ def run_timeout(seconds: float, func, *args, **kwargs):
             ctypes.pythonapi.PyThreadState_SetAsyncExc(
                 ctypes.c_long(thread.ident), ctypes.py_object(KeyboardInterrupt()))
             thread.join()
-        raise TimeoutError
+        raise _TimeLimitReached
 
     # This call flow ensure that the memory of the "killed" thread is cleared
     try:
         return _inner_run()
-    except TimeoutError:
+    except _TimeLimitReached:
         pass
     gc.collect()
     raise TimeoutError
